@@ -342,8 +342,12 @@ def gen_lit(rng, all_forms=True):
 
 
 def gen_target(rng, depth, arrays=True):
-    if arrays and rng.random() < 0.2:
-        idx = rng.choice([("lit", "0"), ("lit", "1"), ("lit", "2"), ("lit", "5"), ("bin", "+", ("lit", "1"), ("lit", "1")),
+    """an lvalue / rvalue: a scalar name, an array element, or (the alias of element 0) a bare array name"""
+    if arrays and rng.random() < 0.25:
+        if rng.random() < 0.3:
+            return ("var", rng.choice(ARRS))          # bare array name: element 0
+        idx = rng.choice([("lit", "0"), ("lit", "0"), ("lit", "1"), ("lit", "2"), ("lit", "5"), ("bin", "+", ("lit", "1"), ("lit", "1")),
+                          ("bin", "-", ("lit", "1"), ("lit", "1")), ("bin", "*", ("var", rng.choice(VARS)), ("lit", "0")),
                           ("bin", "&", ("var", rng.choice(VARS)), ("lit", "3")),       # never negative
                           ("bin", "&", ("inc", "post++", ("var", rng.choice(VARS))), ("lit", "7"))])
         return ("elem", rng.choice(ARRS), idx)
@@ -396,7 +400,11 @@ def gen_value(rng):
     return rng.choice(value_forms(n))
 
 
+ARR_VALUES = ["0", "1", "-1", "5", "-7", "3", "12", "63", "9223372036854775807", "010", "0x10", "", "x", "y+1", "b", "A[1]"]
+
+
 def gen_env(rng):
+    """variable name -> contents: a string (scalar) or a list of strings (indexed array, elements 0..)"""
     env = {}
     for v in VARS:
         r = rng.random()
@@ -404,7 +412,96 @@ def gen_env(rng):
             env[v] = rng.choice(VAR_VALUES)
         elif r < 0.75:
             env[v] = gen_value(rng)
+    for v in ARRS:
+        if rng.random() < 0.5:
+            env[v] = [rng.choice(ARR_VALUES) for _ in range(rng.randint(1, 4))]
     return env
+
+
+def env_texts(env):
+    out = []
+    for v in env.values():
+        out += v if isinstance(v, list) else [v]
+    return out
+
+
+def env_key(env):
+    return tuple((k, tuple(v) if isinstance(v, list) else v) for k, v in sorted(env.items()))
+
+
+def has_array(env):
+    return any(isinstance(v, list) for v in env.values())
+
+
+def set_text(k, v):
+    """shell text that gives variable k the contents v"""
+    if isinstance(v, list):
+        return "%s=(%s)" % (k, " ".join(sq(x) for x in v))
+    return "%s=%s" % (k, sq(v))
+
+
+# ---- aliasing: a bare name is element 0.  Exhaustive (seed independent) read / write / read products.
+ALIAS_WRITE_OPS = ASSIGN_ALL + INC_ALL
+
+
+def alias_forms(name):
+    """every spelling of element 0 of `name` (with z=0, y=7 in the environment), and element 1 as the control"""
+    subs = [("lit", "0"), ("var", "z"), ("bin", "*", ("var", "y"), ("lit", "0")), ("bin", "-", ("var", "y"), ("var", "y"))]
+    return [("var", name)] + [("elem", name, i) for i in subs], ("elem", name, ("lit", "1"))
+
+
+def alias_write(op, t, rhs="5"):
+    if op in INC_ALL:
+        return ("inc", op, t)
+    return ("assign", op, t, ("lit", "9" if op == "=" else rhs))
+
+
+def alias_cases():
+    cs = []
+    env = {"A": ["4", "2", "3"], "z": "0", "y": "7"}
+    aliases, control = alias_forms("A")
+    forms = aliases + [control]
+    # read, write, read: every pair of spellings around every write through every spelling
+    for r1 in forms:
+        for t in forms:
+            for op in ALIAS_WRITE_OPS:
+                for r2 in forms:
+                    w = alias_write(op, t)
+                    cs.append(("exh_alias_rwr", ("bin", "+", ("bin", "+", r1, w), r2), env, "min"))
+                    if op in ("=", "+=", "post++", "--pre"):
+                        cs.append(("exh_alias_rwr", ("bin", ",", ("bin", ",", r1, w), ("bin", "*", r2, r1)), env, "sp"))
+    # write, read, write
+    for t1 in aliases:
+        for o1 in ("=", "*=", "post++", "--pre"):
+            for r in forms:
+                for t2 in forms:
+                    for o2 in ("+=", "++pre"):
+                        cs.append(("exh_alias_wrw", ("bin", "-", ("bin", "*", alias_write(o1, t1), r), alias_write(o2, t2, "3")), env, "min"))
+    # conditional / short-circuit around the write: the write happens or not, the later read must know
+    for r1 in aliases[:3]:
+        for t in aliases[:3] + [control]:
+            for r2 in aliases[:3]:
+                for gate in ("&&", "||"):
+                    cs.append(("exh_alias_gate", ("bin", ",", ("bin", gate, r1, alias_write("=", t)), r2), env, "sp"))
+                cs.append(("exh_alias_gate", ("bin", "+", ("cond", ("bin", ">", r1, ("lit", "3")), alias_write("+=", t), alias_write("post--", t)), r2), env, "sp"))
+    # a scalar is its own element 0 too (the store through x[0] turns it into an array)
+    envx = {"x": "4", "z": "0"}
+    xs = [("var", "x"), ("elem", "x", ("lit", "0")), ("elem", "x", ("var", "z"))]
+    for r1 in xs:
+        for t in xs:
+            for op in ("=", "+=", "post++", "++pre"):
+                for r2 in xs:
+                    cs.append(("exh_alias_scalar", ("bin", "+", ("bin", "+", r1, alias_write(op, t)), r2), envx, "min"))
+    # an array element 0 that is not a plain number (an expression, another name, empty, unset)
+    for a0 in (["y+1", "2"], ["z", "2"], ["", "2"], None):
+        e2 = {"z": "0", "y": "7"}
+        if a0 is not None:
+            e2["A"] = a0
+        for r1 in aliases[:3]:
+            for t in aliases[:3]:
+                for op in ("=", "+=", "post++"):
+                    cs.append(("exh_alias_other", ("bin", "+", ("bin", "+", r1, alias_write(op, t)), aliases[0]), e2, "min"))
+    return cs
 
 
 def deref_cases():
@@ -430,7 +527,10 @@ def deref_cases():
 def req_line(kind, expr, env=None):
     parts = [kind, esc(expr)]
     for k in sorted(env or {}):
-        parts.append("%s=%s" % (k, esc(env[k])))
+        if isinstance(env[k], list):             # indexed array, elements 0..
+            parts.append("@%s=%s" % (k, ",".join(esc(x) for x in env[k])))
+        else:
+            parts.append("%s=%s" % (k, esc(env[k])))
     return " ".join(parts)
 
 
@@ -447,7 +547,7 @@ def script_for(cases):
     for i, (expr, env) in enumerate(cases):
         out.append("unset " + " ".join(UNIVERSE))
         if env:
-            out.append(" ".join("%s=%s" % (k, sq(v)) for k, v in sorted(env.items())))
+            out.append(" ".join(set_text(k, v) for k, v in sorted(env.items())))
         out.append('echo "#%d v $((%s))"' % (i, expr))
         out.append('echo "#%d s %s"' % (i, DUMP))
     return "\n".join(out) + "\n"
@@ -688,7 +788,7 @@ def clause_for(expr, env, tags, brush, bash):
     bash's own diagnosis), so any other divergence stays a VIOLATION.
     (literal_overflow_rejected, blank_expression_rejected, space_next_to_subscript_bracket_rejected and
     subscript_evaluated_twice were repaired in brush: a divergence of those kinds is a VIOLATION again.)"""
-    texts = [expr] + list(env.values())
+    texts = [expr] + env_texts(env)
     berr = bash[2].lower()
     brush_err = brush[0].startswith("e ")
     bash_err = bash[0].startswith("e ")
@@ -714,7 +814,7 @@ def differs(expr, env, b, o):
     if oe and o[0] == "e negexp" and (b[0], b[1]) != (o[0], o[1]):
         # bash 5.2 raises "exponent less than 0" even in a branch it does not evaluate (exppower ignores noeval);
         # the property demands short-circuit evaluation, so bash is not the reference here.
-        if any("**" in t for t in [expr] + list(env.values())) and re.search(r"&&|\|\||\?", " ".join([expr] + list(env.values()))):
+        if any("**" in t for t in [expr] + env_texts(env)) and re.search(r"&&|\|\||\?", " ".join([expr] + env_texts(env))):
             return False, "negative_exponent_in_unevaluated_branch"
     if be and oe:
         # both report an error.  bash evaluates while it parses, brush parses first: after a *syntax* error the
@@ -731,7 +831,7 @@ def differs(expr, env, b, o):
 def corpus_cases():
     cs = []
     cdir = os.path.join(lib.ROOT, "corpus", "C07")
-    if os.path.isdir(cdir):
+    if os.path.isdir(cdir) and not os.environ.get("VERIF_C07_SKIP_CORPUS"):      # (test hook: generators on their own)
         for f in sorted(os.listdir(cdir)):
             if not f.endswith(".txt"):
                 continue
@@ -742,6 +842,8 @@ def corpus_cases():
                 # format: <clause or -> TAB <expr> [TAB name=value]...
                 parts = l.split("\t")
                 env = dict(p.split("=", 1) for p in parts[2:])
+                for k in [k for k in env if k.startswith("@")]:       # `@name=v0,v1,…`: an indexed array
+                    env[k[1:]] = env.pop(k).split(",")
                 cs.append(("corpus", parts[1], env, None if parts[0] == "-" else parts[0]))
     return cs
 
@@ -761,7 +863,7 @@ def run(ctx):
     cases = []
     for b, e, env, tag in corpus_cases():
         cases.append((b, e, env, {tag} if tag else set(), None))
-    for b, t, env, style in exhaustive_cases():
+    for b, t, env, style in exhaustive_cases() + alias_cases():
         cases.append((b, render(t, rng, style), env, features(t), sexpr(t)))
     for b, t, env, style in random_cases(rng, ctx.size(20000, 300000), ctx.size(3, 5)):
         cases.append((b, render(t, rng, style), env, features(t), sexpr(t)))
@@ -783,7 +885,7 @@ def run(ctx):
     clean = []          # cases on which brush and bash agree at top level: the population of the context sweep
     for i, (bucket, expr, env, tags, want) in enumerate(cases):
         nontriv = bool(re.search(r"[-+*/%<>=!~&|^?,]", expr))
-        ctx.count((expr, tuple(sorted(env.items()))), nontrivial=nontriv, bucket=bucket)
+        ctx.count((expr, env_key(env)), nontrivial=nontriv, bucket=bucket)
         ctx.impl_validated += 1
         hp, mp, he, me = hout[i], mout[i], hout[n + i], mout[n + i]
         case = {"expr": expr, "env": env}
@@ -841,6 +943,7 @@ def run(ctx):
         ctx.sample({"expr": cases[j][1], "env": cases[j][2], "brush": hout[n + j], "model": mout[n + j], "bash": bash[j][:2]})
     contexts(ctx)
     deref_contexts(ctx)
+    alias_contexts(ctx)
     context_sweep(ctx, [(cases[i][0], cases[i][1], cases[i][2], bash[i][0]) for i in clean])
     ctx.cov["rule"] = ("exhaustive: 20 binary ops x 15^2 boundary operands, 4 unary, 4 inc/dec, 11 assignment ops x 15^2, every ordered pair "
                        "of binary operators in both groupings with minimal parentheses, unary/assignment/conditional against every binary "
@@ -849,10 +952,17 @@ def run(ctx):
                        "parentheses+spacing; variable contents: the hand-picked list plus <unary prefix><literal form> (9 prefixes x 15 forms x 13 "
                        "boundary values, bare and blank-padded), exhaustively through bare-name dereference (x, x+1, x++, chain, subscript) "
                        "and in (( )), let, ${Q[x]}, ${S:x}; a malformed stream (token deleted/inserted/replaced); fixed witnesses of recorded defects; "
+                       "aliasing (a bare name is element 0): exhaustive read/write/read and write/read/write products over the spellings "
+                       "A, A[0], A[z] (z=0), A[y*0], A[y-y] and the control A[1], every assignment operator and all four ++/--, around + and "
+                       "the comma, under && || ?:, for an array, a scalar (x / x[0]) and an element 0 that is an expression / a name / empty / unset "
+                       "(model + in-process + binary + bash), the same product for indexed and associative arrays in $(( )), (( )), let, "
+                       "a subscript and a substring offset (binary vs bash); random trees use bare array names and elements as rvalues and "
+                       "lvalues over arrays with initial contents; "
                        "non-trivial = contains an operator; each case: brush parser+evaluator in-process vs Lean model, brush binary vs bash"
                        % ctx.size(3, 5))
     ctx.assumptions += ["bash 5.2.15 `$(( ))` is the reference for value, error/no-error and variables afterwards",
-                        "only scalar and indexed-array variables without attributes are modelled (no nounset, no associative arrays)",
+                        "only scalar and indexed-array variables without attributes are modelled (no nounset); associative arrays (key 0 = the bare "
+                        "name) are compared brush binary vs bash only",
                         "the peg crate's precedence!{} algorithm is modelled by hand (Model/ArithParse.lean) from peg-macros 0.8.6"]
 
 
@@ -903,7 +1013,8 @@ def contexts(ctx):
     db, do = grab(rb), grab(ro)
     # witnesses that need a process of their own (a failure aborts the whole script)
     for clause, scr in ISOLATED:
-        b, o = lib.run_both(scr, mode="file")
+        with tempfile.TemporaryDirectory(prefix="c07i-") as wd:   # `Q[x>1?4:5]=z` is a redirection for a shell that splits the word
+            b, o = lib.run_both(scr, mode="file", cwd=wd)
         ctx.count(("isolated", scr), bucket="context_isolated")
         if lib.is_panic(b):
             ctx.violation("brush panicked", {"script": scr, "stderr": b["err"][-300:]})
@@ -991,6 +1102,66 @@ def deref_contexts(ctx):
                 ctx.violation("brush and bash disagree on a variable dereferenced in %s" % names[k], case)
 
 
+def alias_contexts(ctx):
+    """`a` and `a[0]` (indexed arrays; key 0 of associative arrays) read / written / read inside ONE evaluation, in the
+    places the shell itself evaluates arithmetic: $(( )), (( )), let, an array subscript, a substring offset; brush
+    binary against bash.  Exhaustive and seed independent."""
+    fams = []
+    # (array name, set-up, spellings of element 0, control)
+    ai = ["A", "A[0]", "A[z]", "A[y*0]"]
+    ah = ["H", "H[0]"]                  # an associative subscript is a string key: only the literal spelling is element "0"
+    for name, setup, al, ctl in (("A", "unset A H; A=(4 2 3)", ai, "A[1]"),
+                                 ("H", "unset A H; declare -A H=([0]=4 [1]=2 [k]=3)", ah, "H[1]")):
+        forms = al + [ctl]
+        ws = []
+        for t in forms:
+            ws += ["%s=9" % t, "%s+=5" % t, "%s*=3" % t, "%s>>=1" % t, "++%s" % t, "--%s" % t, "%s++" % t, "%s--" % t]
+        for r1 in forms:
+            for w in ws:
+                for r2 in forms:
+                    fams.append((name, setup, "%s + (%s) + %s" % (r1, w, r2)))
+                fams.append((name, setup, "%s , %s , %s * %s" % (r1, w, al[0], r1)))
+        for w1 in ws[:16]:
+            for r in forms:
+                fams.append((name, setup, "(%s) * %s - (%s -= 2)" % (w1, r, al[-1])))
+    chunks = lib.chunked(list(enumerate(fams)), lib.NCPU)
+
+    def block(i, name, setup, e):
+        dump = '${%s[0]}|${%s[1]}|${!%s[*]}' % (name, name, name) if name == "A" else '${H[0]}|${H[1]}|${H[k]}|${#H[@]}'
+        pre = setup + "; z=0 y=7 r=; "
+        L = [pre + 'echo "#%d.a $(( %s )) %s"' % (i, e, dump),
+             pre + '(( r = %s )); echo "#%d.b $? $r %s"' % (e, i, dump),
+             pre + 'let %s; echo "#%d.c $? $r %s"' % (sq("r = " + e), i, dump),
+             pre + 'Q=(q0 q1 q2 q3 q4 q5 q6 q7); echo "#%d.d ${Q[(%s)&7]} %s"' % (i, e, dump),
+             pre + 'S=abcdefghijkl; echo "#%d.e ${S:(%s)&7:2} %s"' % (i, e, dump)]
+        return L
+
+    def one(ch):
+        scr = "\n".join(l for i, (name, setup, e) in ch for l in block(i, name, setup, e)) + "\n"
+        return run_script("brush", scr)[1], run_script("bash", scr)[1]
+    outs = lib.pmap(one, chunks)
+    db, do = {}, {}
+    for rb, ro in outs:
+        if "panicked at" in rb:
+            ctx.violation("brush panicked in the alias contexts", {"output_tail": rb[-400:]})
+        db.update(sweep_outputs(rb))
+        do.update(sweep_outputs(ro))
+    names = {"a": "$(( ))", "b": "(( ))", "c": "let", "d": "array subscript", "e": "substring offset"}
+    nv = 0
+    for i, (name, setup, e) in enumerate(fams):
+        for k, line in zip("abcde", block(i, name, setup, e)):
+            key = "%d.%s" % (i, k)
+            ctx.count(("aliasctx", k, name, e), nontrivial=True, bucket="alias_%s_%s" % ("indexed" if name == "A" else "assoc", k))
+            b, o = db.get(key), do.get(key)
+            if b == o and b is not None:
+                continue
+            if nv < 15:
+                nv += 1
+                ctx.violation("`%s` and `%s[0]` are the same cell: brush and bash disagree on a read/write/read inside one %s"
+                              % (name, name, names[k]),
+                              {"context": names[k], "expr": e, "env": {}, "script": line, "brush": b, "bash": o})
+
+
 def deref_ctx_clause(k, v, b, o):
     """recorded defect classes, by the feature of the variable's contents"""
     w = v.strip()
@@ -1017,7 +1188,7 @@ def sweep_blocks(cid, expr, env):
     def ident(c):
         return "%s.%s" % (cid, c)
     unset = "unset " + " ".join(UNIVERSE)
-    sets = " ".join("%s=%s" % (k, sq(v)) for k, v in sorted(env.items()))
+    sets = " ".join(set_text(k, v) for k, v in sorted(env.items()))
     pre = unset + ("\n" + sets if sets else "")
 
     def val(c, e=None, tag="v"):
@@ -1034,7 +1205,7 @@ def sweep_blocks(cid, expr, env):
         B.append((c, "(\n" + text + "\n)"))
     keys = sorted(env)
     hide = " ".join("%s=77" % k for k in keys)
-    loc = lambda ks: ("local " + " ".join("%s=%s" % (k, sq(env[k])) for k in ks)) if ks else ":"
+    loc = lambda ks: ("local " + " ".join(set_text(k, env[k]) for k in ks)) if ks else ":"
     # --- execution contexts, carrier $(( ))
     add("top", pre + "\n" + body("top"))
     add("func", pre + "\nf_() {\n" + body("func") + "\n}\nf_\n" + dmp("func", "g"))
@@ -1172,7 +1343,7 @@ def context_sweep(ctx, population):
                 continue
             key = "%d.%s" % (cid, c)
             name = SWEEP_OPTIONS[int(c[3:])] if c.startswith("opt") else c
-            ctx.count(("sweep", c, expr, tuple(sorted(env.items()))), bucket="sweep_" + ("option" if c.startswith("opt") else c))
+            ctx.count(("sweep", c, expr, env_key(env)), bucket="sweep_" + ("option" if c.startswith("opt") else c))
             b, o = db.get(key), do.get(key)
             if b == o:
                 continue
@@ -1213,7 +1384,7 @@ def repeated_evaluation(ctx, pop):
         for rnd in ("A", "B", "C", "D"):
             for k, (bucket, expr, env, _) in enumerate(ch):
                 i = base + k
-                sets = " ".join("%s=%s" % (kk, sq(v)) for kk, v in sorted(env.items()))
+                sets = " ".join(set_text(kk, v) for kk, v in sorted(env.items()))
                 how = {"A": "sp", "B": "min", "C": "wide", "D": "sp"}[rnd]
                 e = relayout(expr, how)
                 lines.append(unset)
@@ -1238,7 +1409,7 @@ def repeated_evaluation(ctx, pop):
         for k, (bucket, expr, env, _) in enumerate(ch):
             for rnd in "ABCD":
                 key = "%d.%s" % (base + k, rnd)
-                ctx.count(("repeat", rnd, expr, tuple(sorted(env.items()))), bucket="repeat_" + rnd)
+                ctx.count(("repeat", rnd, expr, env_key(env)), bucket="repeat_" + rnd)
                 if b1.get(key) != o1.get(key) and nv < 10:
                     nv += 1
                     ctx.violation("repeated evaluation in one process: brush and bash disagree (round %s of: spaced, minimal, wide, "
